@@ -31,6 +31,10 @@ def spaces():
             "suit-delegation": [], "suit-authentication-wrapper": {"SuitDigest": dict(DIG)},
             "suit-manifest": dict(MIN_MANIFEST), "suit-dependency-resolution": seq, "suit-payload-fetch": seq,
             "suit-install-legacy": seq, "suit-candidate-verification": seq, "suit-install": seq, "suit-text": {}}),
+        "envelope-simplified": dict(kind="map", cls=E.SuitEnvelopeSimplified, values={
+            "suit-delegation": [], "suit-authentication-wrapper": {"SuitDigest": dict(DIG)}, "suit-manifest": "a0",
+            "suit-dependency-resolution": "80", "suit-payload-fetch": "80", "suit-install-legacy": "80", "suit-candidate-verification": "80",
+            "suit-install": "80", "suit-text": "a0"}),
         "manifest": dict(kind="map", cls=M.SuitManifest, values={
             "suit-manifest-version": 1, "suit-manifest-sequence-number": 0, "suit-common": {},
             "suit-reference-uri": "u", "suit-manifest-component-id": ["a"], "suit-current-version": "1",
